@@ -85,6 +85,38 @@ impl<R: RngCore> RngCore for Budget<R> {
         Ok(())
     }
 }
+/// a degenerate stream for the first `stuck` bytes, then a good one: samplers that give up, fall back
+/// or switch strategy after many rejected candidates are only reachable this way
+pub struct StuckThenRelease<A: RngCore, B2: RngCore> {
+    pub bad: A,
+    pub good: B2,
+    pub stuck: usize,
+}
+impl<A: RngCore, B2: RngCore> RngCore for StuckThenRelease<A, B2> {
+    fn next_u32(&mut self) -> u32 {
+        let mut b4 = [0u8; 4];
+        self.fill_bytes(&mut b4);
+        u32::from_le_bytes(b4)
+    }
+    fn next_u64(&mut self) -> u64 {
+        let mut b8 = [0u8; 8];
+        self.fill_bytes(&mut b8);
+        u64::from_le_bytes(b8)
+    }
+    fn fill_bytes(&mut self, dest: &mut [u8]) {
+        if self.stuck >= dest.len() {
+            self.stuck -= dest.len();
+            self.bad.fill_bytes(dest)
+        } else {
+            self.stuck = 0;
+            self.good.fill_bytes(dest)
+        }
+    }
+    fn try_fill_bytes(&mut self, dest: &mut [u8]) -> Result<(), rand_core::Error> {
+        self.fill_bytes(dest);
+        Ok(())
+    }
+}
 /// degenerate streams
 pub struct PatternRng {
     pub pat: Vec<u8>,
@@ -204,7 +236,7 @@ fn ark_part(ctx: &Ctx, rec: &mut Rec, zoo: &[SE]) {
     rec.declare_form("Distribution<Element>::sample");
     rec.declare_form("Distribution<AffinePoint>::sample");
     rec.declare_form("UniformRand::rand (Element)");
-    for cl in ["chacha", "all-zero", "all-ones", "counter", "short-period"] {
+    for cl in ["chacha", "all-zero", "all-ones", "counter", "short-period", "stuck-then-release"] {
         rec.declare_class(&format!("rng:{cl}"));
     }
     par(rec, |w, n, rec| {
@@ -214,7 +246,7 @@ fn ark_part(ctx: &Ctx, rec: &mut Rec, zoo: &[SE]) {
             if rep % n != w {
                 continue;
             }
-            let kind = if rep % 50 < 46 { "chacha" } else { ["all-zero", "all-ones", "counter", "short-period"][rep % 4] };
+            let kind = if rep % 50 < 40 { "chacha" } else if rep % 50 < 46 { "stuck-then-release" } else { ["all-zero", "all-ones", "counter", "short-period"][rep % 4] };
             rec.class(&format!("rng:{kind}"));
             let seed = rng.next_u64();
             let mk = || -> Box<dyn RngCore> {
@@ -223,6 +255,17 @@ fn ark_part(ctx: &Ctx, rec: &mut Rec, zoo: &[SE]) {
                     "all-zero" => Box::new(PatternRng { pat: vec![0], pos: 0, counter: false, ctr: 0 }),
                     "all-ones" => Box::new(PatternRng { pat: vec![0xff], pos: 0, counter: false, ctr: 0 }),
                     "counter" => Box::new(PatternRng { pat: vec![], pos: 0, counter: true, ctr: seed }),
+                    "stuck-then-release" => {
+                        // a pattern that is (almost always) rejected, for 0..48 KiB, then ChaCha
+                        let pat: Vec<u8> = match seed % 4 {
+                            0 => vec![0],
+                            1 => vec![0xff],
+                            2 => vec![(seed >> 8) as u8, 0, 0, 0, 0, 0, 0, 0],
+                            _ => seed.to_le_bytes()[..7].to_vec(),
+                        };
+                        let stuck = ((seed >> 16) % 49152) as usize;
+                        Box::new(StuckThenRelease { bad: PatternRng { pat, pos: 0, counter: false, ctr: 0 }, good: rng_for(seed, "sampler", 1, 0), stuck })
+                    }
                     _ => Box::new(PatternRng { pat: seed.to_le_bytes()[..7].to_vec(), pos: 0, counter: false, ctr: 0 }),
                 }
             };
@@ -230,7 +273,7 @@ fn ark_part(ctx: &Ctx, rec: &mut Rec, zoo: &[SE]) {
             let name = ["Distribution<Element>::sample", "Distribution<AffinePoint>::sample", "UniformRand::rand (Element)"][which];
             rec.eval(&(name, kind, seed), false);
             let res = guarded(|| {
-                let mut br = Budget { inner: mk(), left: 1 << 16 };
+                let mut br = Budget { inner: mk(), left: if kind == "stuck-then-release" { 1 << 18 } else { 1 << 16 } };
                 match which {
                     0 => Distribution::<El>::sample(&Standard, &mut br),
                     1 => Distribution::<Af>::sample(&Standard, &mut br).into(),
